@@ -278,6 +278,7 @@ class TU:
         self.records = []      # (cname, node)
         self.consts = {}       # name -> (ctype, init node)
         self.const_by_id = {}
+        self.const_digest = {}
         self.globals = {}      # id -> cname
         self.global_decls = []
         self.lambda_names = {}  # lambda CXXRecordDecl type spelling -> C function name
@@ -331,9 +332,28 @@ class TU:
                 self._collect_func(d, [])
                 self.anon_funcs[d['name']] = d['id']
 
+    @staticmethod
+    def _digest(n):
+        # structural digest of an initialiser: ids, source positions and implicit flags removed
+        if isinstance(n, dict):
+            return tuple(sorted((k, TU._digest(v)) for k, v in n.items()
+                                if k not in ('id', 'loc', 'range', 'isUsed', 'isReferenced', 'previousDecl')))
+        if isinstance(n, list):
+            return tuple(TU._digest(x) for x in n)
+        return n
+
     def _reg_const(self, d):
         name = d['name']
         init = [c for c in d.get('inner', []) if c.get('kind', '').endswith(('Expr', 'Literal', 'Operator'))]
+        dig = (d['type']['qualType'].replace('const ', '').strip(), self._digest(init[0]) if init else None)
+        if name in self.consts:
+            # constants are referenced by NAME in the C text: a second declaration of the same name in another scope
+            # (a header constant hiding a TU-local one, ...) would be resolved differently by the C++ compiler
+            if self.const_digest.get(name) != dig:
+                raise ExtractError('two different constants named %s are visible (C++ name lookup is scope-aware, '
+                                   'the extracted C text is not)' % name)
+            return
+        self.const_digest[name] = dig
         self.consts[name] = (d['type']['qualType'], init[0] if init else None)
         self.const_by_id[d['id']] = name
 
@@ -397,8 +417,7 @@ class TU:
             self._collect_func(n, scope)
         elif k == 'VarDecl':
             if n.get('constexpr') or 'const ' in n['type']['qualType'] and scope == []:
-                if n['name'] not in self.consts:
-                    self._reg_const(n)
+                self._reg_const(n)
             else:
                 self._reg_global(n, scope)
 
@@ -622,8 +641,7 @@ class Emitter:
                     self.tu.globals[c['id']] = gname
                     self.tu.global_decls.append((gname, c))
                 elif c.get('kind') == 'VarDecl' and c.get('constexpr'):
-                    if c['name'] not in self.tu.consts:
-                        self.tu._reg_const(c)
+                    self.tu._reg_const(c)
             self.tu_fields = getattr(self, 'tu_fields', {})
             self.tu_fields[cname] = fields
         # order records so that by-value members come first
@@ -677,6 +695,7 @@ class Emitter:
         self.loop_no = 0
         self.dtor_locals = []
         self.scopes = [[]]      # per C++ block: locals with a modelled destructor, in declaration order
+        self.elided = set()
         self.loop_scopes = []   # len(self.scopes) at the entry of each enclosing loop
         self.T.local_alias = self.aliases_for(f)
         self.func_stats[f.cname] = {'atomic': 0, 'loops': 0, 'returns': 0, 'calls': 0}
@@ -688,7 +707,12 @@ class Emitter:
         self.names[p['id']] = name
         if self.T.is_ref(qt):
             self.refvars.add(p['id'])
+        elif not is_lambda_obj and '*' not in ct and self.has_dtor(ct) and self.cur is not None and self._has_own_body():
+            die('by-value parameter of class type %s (with a destructor): its destruction at the end of the call is not modelled' % ct, p)
         return '%s %s' % (ct, name)
+
+    def _has_own_body(self):
+        return any(c.get('kind') == 'CompoundStmt' for c in self.cur.node.get('inner', []))
 
     def emit_function(self, f, body_only=False):
         n = f.node
@@ -762,10 +786,12 @@ class Emitter:
                 continue
             name = c['name']
             if name in inits and inits[name].get('kind') != 'CXXDefaultInitExpr':
+                self.mark_elided(inits[name])
                 self.emit_field_init('self.' + name, c, inits[name], 1)
             else:
                 default = [x for x in c.get('inner', []) if 'Expr' in x.get('kind', '') or 'Literal' in x.get('kind', '')]
                 if default:
+                    self.mark_elided(default[0])
                     self.emit_field_init('self.' + name, c, default[0], 1)
                 else:
                     self.emit_default_init('self.' + name, c, 1)
@@ -955,6 +981,7 @@ class Emitter:
             # after the return value has been constructed (reverse order of declaration)
             self.stat('returns')
             rt = self.func_sig(self.cur)[0]
+            self.mark_elided(s['inner'][0])
             self.w('{', ind)
             self.w('%s verif_ret = %s;' % (rt, self.addr(s['inner'][0]) if self.ret_ref else self.expr(s['inner'][0])), ind + 1)
             self.destroy_live_locals(ind + 1)
@@ -975,6 +1002,7 @@ class Emitter:
                     self.w('return;', ind)
             else:
                 e = inner[0]
+                self.mark_elided(e)
                 if self.ret_ref:
                     self.w('return %s;' % self.addr(e), ind)
                 else:
@@ -1076,9 +1104,7 @@ class Emitter:
                 self.w(text + ';', ind)
 
     def expr_stmt(self, e):
-        e = self.unwrap(e)
-        if e.get('kind') == 'CXXThrowExpr':
-            return self.expr(e)
+        # NOT unwrapped: a discarded temporary (`Guard{...};`) must keep its CXXBindTemporaryExpr (destroyed at the `;`)
         return self.expr(e)
 
     def local_decl(self, d, ind):
@@ -1089,6 +1115,8 @@ class Emitter:
         self.names[d['id']] = name
         inits = [c for c in d.get('inner', []) if 'Attr' not in c.get('kind', '')]
         init = inits[0] if inits else None
+        if init is not None:
+            self.mark_elided(init)
         if d.get('tls') or d.get('storageClass') == 'static':
             # function-local thread_local object -> per-thread ghost global of "me", constructed on first use
             ct = self.ctype(d)
@@ -1162,7 +1190,7 @@ class Emitter:
                 ct = self.ctype(u)
                 name = self.fresh('verif_tmp')
                 self.temp_ctx['pre'].append('%s %s = %s;' % (ct, name, self.expr(inner)))
-                if ct in self.NEEDS_TEMP_DTOR:
+                if self.has_dtor(ct):
                     self.temp_ctx['post'].insert(0, '%s_dtor(&%s); /* temporary destroyed at the end of the full expression */' % (ct, name))
                 return '&' + name
         s = self.expr(e)
@@ -1197,13 +1225,37 @@ class Emitter:
         return self.expr(e['inner'][0])
     x_ExprWithCleanups = _pass
 
-    NEEDS_TEMP_DTOR = ('shared_ptr_size',)
+    def has_dtor(self, ct):
+        return (ct in getattr(self, 'tu_fields', {}) and any(f.cname == ct + '_dtor' for f in self.tu.func_order)) \
+            or ct in self.LIB_DTOR_LOCALS
+
+    def mark_elided(self, e):
+        """the temporary that directly initialises a variable or the return value is constructed in place (no
+        destruction of its own); every other temporary of a class with a destructor dies with its full expression"""
+        while isinstance(e, dict) and e.get('inner') and (
+                e.get('kind') in ('ExprWithCleanups', 'ParenExpr', 'ConstantExpr', 'CXXDefaultInitExpr', 'CXXFunctionalCastExpr') or
+                (e.get('kind') == 'ImplicitCastExpr' and e.get('castKind') in ('NoOp', 'ConstructorConversion'))):
+            e = e['inner'][0]
+        if not isinstance(e, dict):
+            return
+        if e.get('kind') == 'CXXBindTemporaryExpr':
+            self.elided.add(id(e))
+            self.mark_elided(e['inner'][0]) if e.get('inner') else None
+        elif e.get('kind') == 'ConditionalOperator':
+            for arm in e.get('inner', [])[1:]:
+                self.mark_elided(arm)
+        elif e.get('kind') == 'CXXConstructExpr' and e.get('elidable') and e.get('inner'):
+            self.mark_elided(e['inner'][0])
+        elif e.get('kind') == 'MaterializeTemporaryExpr' and e.get('inner'):
+            self.mark_elided(e['inner'][0])
 
     def x_CXXBindTemporaryExpr(self, e):
-        # a temporary of a class type with a non-trivial destructor that is NOT elided into a variable / return value
-        # (those are unwrapped by the callers): it lives until the end of the full expression, then it is destroyed
+        # a temporary of a class type with a non-trivial destructor that is NOT elided into a variable / return value:
+        # it lives until the end of the full expression, then it is destroyed
         ct = self.ctype(e)
-        if ct in self.NEEDS_TEMP_DTOR and self.temp_ctx is not None:
+        if self.has_dtor(ct) and id(e) not in self.elided:
+            if self.temp_ctx is None:
+                die('temporary of class type %s (with a destructor) outside an expression statement is not modelled' % ct, e)
             name = self.fresh('verif_tmp')
             self.temp_ctx['pre'].append('%s %s = %s;' % (ct, name, self.expr(e['inner'][0])))
             self.temp_ctx['post'].insert(0, '%s_dtor(&%s); /* temporary destroyed at the end of the full expression */' % (ct, name))
